@@ -510,6 +510,60 @@ fn theme_castle(t: &mut Tape) -> Option<GenPos> {
     finish(t, p, "theme_castle")
 }
 
+/// Theme: a castling right whose rook is about to be captured on its home square - by a promoting
+/// pawn, a knight, or a piece of any other kind - while a second rook of the same colour stands ready
+/// to recapture there. After the recapture a rook is at home again and the king has never moved, but
+/// the right is gone for good.
+fn theme_corner_recapture(t: &mut Tape) -> Option<GenPos> {
+    let mut p = Pos::empty();
+    p.white_to_move = false;
+    p.board[4] = Some(Pc::new(true, Kind::K));
+    let kingside = t.pick(2) == 0;
+    let (corner, cf, dir) = if kingside { (7u8, 7i32, -1i32) } else { (0u8, 0i32, 1i32) };
+    p.board[corner as usize] = Some(Pc::new(true, Kind::R));
+    // the rook that will recapture: on the corner's file, or next to the corner on the first rank
+    let second = if t.pick(3) == 0 { sq(cf + dir, 0) } else { sq(cf, 2 + t.pick(5) as i32) };
+    p.board[second as usize] = Some(Pc::new(true, Kind::R));
+    // the capturer
+    match t.pick(4) {
+        0 | 1 => {
+            // pawn on the seventh (second) rank next to the corner file - unless the second rook stands
+            // in front of the corner on the first rank, the capture square is the corner itself
+            p.board[sq(cf + dir, 1) as usize] = Some(Pc::new(false, Kind::P));
+        }
+        2 => {
+            let c = [sq(cf + dir, 2), sq(cf + 2 * dir, 1)][t.pick(2)];
+            if p.board[c as usize].is_some() {
+                return None;
+            }
+            p.board[c as usize] = Some(Pc::new(false, Kind::N));
+        }
+        _ => {
+            // bishop or queen on the long diagonal
+            let r = ray(corner, (dir, 1));
+            let j = 1 + t.pick(r.len() - 1);
+            p.board[r[j] as usize] = Some(Pc::new(false, if t.pick(2) == 0 { Kind::B } else { Kind::Q }));
+        }
+    }
+    let avoid: Vec<Sq> = (0..8).map(|f| sq(f, 0)).chain(ray(corner, (dir, 1))).chain(ray(corner, (0, 1))).collect();
+    if !place_king_safely(t, &mut p, false, &avoid) {
+        return None;
+    }
+    let n = t.pick(6);
+    sprinkle(t, &mut p, n, &avoid);
+    p.castle = [false; 4];
+    p.castle[if kingside { WK } else { WQ }] = true;
+    if t.pick(2) == 0 && p.board[(7 - corner) as usize].is_none() {
+        p.board[(7 - corner) as usize] = Some(Pc::new(true, Kind::R));
+        p.castle[if kingside { WQ } else { WK }] = true;
+    }
+    if p.attacked(4, false) && !p.white_to_move {
+        // white king in check with Black to move: not a legal position
+        return None;
+    }
+    finish(t, p, "theme_corner_recapture")
+}
+
 /// Theme: promotions, also while in check (capture the checker by promoting, block by promoting).
 fn theme_promo(t: &mut Tape) -> Option<GenPos> {
     let mut p = Pos::empty();
@@ -950,7 +1004,8 @@ pub fn gen_root(t: &mut Tape, mix: Mix) -> Option<GenPos> {
             10 => theme_check(t),
             _ => theme_random(t),
         },
-        Mix::General => match t.pick(16) {
+        Mix::General => match t.pick(17) {
+            16 => theme_corner_recapture(t),
             0 | 1 | 2 => root(t),
             3 => theme_boxed(t),
             4 | 5 => theme_pin(t),
